@@ -178,6 +178,39 @@ func manifestVariant(rng *rand.Rand, fake []byte, k int) ([]byte, string, bool) 
 		se.IBBSegments = append(se.IBBSegments, s)
 		descr += " +segment"
 	}
+	// hashed segments that overlap, lie inside or repeat another hashed segment, in front of it
+	// or behind it (the IBB data source hands the list on as it is)
+	if k%2 == 1 {
+		for i := range se.IBBSegments {
+			s := se.IBBSegments[i]
+			if s.Flags&1 == 1 || s.Size < 8 {
+				continue
+			}
+			x := s
+			what := "repeated"
+			switch rng.Intn(3) {
+			case 0:
+				x.Base += s.Size / 4
+				x.Size = s.Size / 2
+				what = "nested"
+			case 1:
+				x.Base += s.Size / 2
+				if uint64(x.Base)+uint64(x.Size) > fourGiB {
+					x.Size = uint32(fourGiB - uint64(x.Base))
+				}
+				what = "overlapping"
+			}
+			if rng.Intn(2) == 0 {
+				se.IBBSegments = append(se.IBBSegments, x)
+				what += " segment behind"
+			} else {
+				se.IBBSegments = append(se.IBBSegments[:i:i], append([]cbntbootpolicy.IBBSegment{x}, se.IBBSegments[i:]...)...)
+				what += " segment in front"
+			}
+			descr += " +" + what
+			break
+		}
+	}
 	switch rng.Intn(3) {
 	case 0:
 		bpm.TXTE = nil
